@@ -134,6 +134,7 @@ def run(repo, run, tier):
                            facts=dict(first_failures=bad[:4], attained_order=n0 - 1))
     run.extra["order_conditions_evaluated"] = total_conditions
     richardson(repo, run, r5, info)
+    adaptivity_switch(repo, run)
 
 
 # ------------------------------------------------------------------------------------------------
@@ -440,3 +441,54 @@ def richardson(repo, run, r5, info):
                        len(failing), judged, [(a, b, c, d) for a, b, c, d, _ in ex],
                        "; weights do not sum to one" if any(f[4] for f in failing) else ""),
                    text=construct, facts=dict(failing=[list(f) for f in failing[:40]]))
+
+
+# ------------------------------------------------------------------------------------------------
+def adaptivity_switch(repo, run):
+    """The Richardson wrapper asks its base integrators to stop adapting (`integrator.is_adaptive = False`): extrapolation combines results
+    of 1, 2, 4, ... EQUAL sub-steps of the same span, which a base method that shortens or retries its own steps does not deliver."""
+    from ..sym import BoolTracker, eval_bool, tree_atoms
+    import itertools
+    rid = run.rule("C01.6", "the wrapper's request `base.is_adaptive = False` makes the base's is_adaptive property false whatever the table: the getter is "
+                            "evaluated as a boolean function of (_adaptive, the value stored by the setter)", floor=2)
+    init = repo.get(extract.ITYPES, extract.RICH + ".__init__")
+    run.analysed_fn(extract.ITYPES, init)
+    req = [st for st in ast.walk(init) if isinstance(st, ast.Assign) and isinstance(st.targets[0], ast.Attribute) and st.targets[0].attr == "is_adaptive"
+           and isinstance(st.value, ast.Constant) and st.value.value is False]
+    run.judged(rid, "wrapper switches base adaptivity off: %s" % [src(s) for s in req], ok=bool(req))
+    if not req:
+        run.report("C01.6", extract.ITYPES, init, "the Richardson wrapper does not switch off the step adaptation of its base integrators", text="missing is_adaptive = False")
+        return
+    getter = repo.get(extract.ITYPES, "TableauIntegrator.is_adaptive")
+    setter = repo.get(extract.ITYPES, "TableauIntegrator.is_adaptive@setter")
+    run.analysed_fn(extract.ITYPES, getter)
+    sp = [a.arg for a in setter.args.args][1]
+    stored = None
+    for st in setter.body:
+        if isinstance(st, ast.Assign) and is_self_attr(st.targets[0]):
+            v = st.value
+            neg = False
+            if isinstance(v, ast.UnaryOp) and isinstance(v.op, ast.Not):
+                v, neg = v.operand, True
+            if isinstance(v, ast.Name) and v.id == sp:
+                stored = (st.targets[0].attr, neg)
+    if stored is None:
+        raise AnalysisError("is_adaptive setter does not store its argument")
+    rets = [st for st in getter.body if isinstance(st, ast.Return)]
+    tree = BoolTracker().tree(rets[0].value)
+    atoms = tree_atoms(tree)
+    key = "self." + stored[0]
+    bad = None
+    for vals in itertools.product((False, True), repeat=len(atoms)):
+        asg = dict(zip(atoms, vals))
+        if key in asg:
+            asg[key] = (not False) if stored[1] else False      # value stored by `x.is_adaptive = False`
+        if eval_bool(tree, asg):
+            bad = dict(asg)
+            break
+    ok = key in atoms and bad is None
+    run.judged(rid, "getter `%s` after setter stored %s%s=False" % (src(rets[0].value), "not " if stored[1] else "", sp), ok=ok)
+    if not ok:
+        run.report("C01.6", extract.ITYPES, rets[0], "after `integrator.is_adaptive = False` the property still evaluates to True (e.g. with %s): the base methods of a Richardson "
+                                                     "wrapper keep adapting, shortening and retrying their own sub-steps, so the tableau combines results over different spans" % (
+                                                         {k: v for k, v in (bad or {}).items()},), text="is_adaptive getter/setter: %s" % src(rets[0].value))
